@@ -90,3 +90,53 @@ Section Spec.
 
   Definition spec_b : bool := headers_sound_b && headers_complete_b && query_b.
 End Spec.
+
+(* GraphQL backends: the stage's own two headers and (GET transport) three parameters join the
+   gateway-owned names; everything else is as for a plain backend *)
+Section SpecGql.
+  Variable g : gql.
+  Variable c : config.
+  Variable r : request.
+  Variable o : obs.
+
+  Definition gql_own_hb (h : string) : bool :=
+    match g with GNone => false | _ => str_eqb h CT || str_eqb h CL end.
+  Definition gql_own_qb (k : string) : bool :=
+    match g with GGet _ => str_mem k gql_keys | _ => false end.
+  Definition gql_opq : hmap := match g with GGet q => q | _ => [] end.
+
+  Definition gql_headers_sound : Prop :=
+    forall h, sent_h o h <> [] ->
+      own h \/ gql_own_hb h = true \/ (allowed_ep_h c h /\ allowed_be_h c h /\ sent_h o h = client_h r h).
+  Definition gql_headers_complete : Prop :=
+    forall h, allowed_ep_h c h -> allowed_be_h c h -> ~ overwritten (canon h) -> gql_own_hb (canon h) = false ->
+      client_h r h <> [] -> sent_h o (canon h) = client_h r h.
+  (* the stage's own headers carry the stage's values, whatever the client sent and the lists say *)
+  Definition gql_own_headers : Prop :=
+    match g with
+    | GNone => True
+    | GPost n => sent_h o CT = [json_ct] /\ sent_h o CL = [n]
+    | GGet _ => sent_h o CT = [json_ct] /\ sent_h o CL = ["0"]
+    end.
+  Definition gql_query_exact : Prop :=
+    forall k, sent_q o k =
+      (static_q c k ++ (if gql_own_qb k then getl k gql_opq else fwd_q c r k))%list.
+
+  Definition spec_gql_b : bool :=
+    forallb (fun kv => let h := fst kv in
+               is_nil (sent_h o h) || own_b h || gql_own_hb h ||
+               (allowed_ep_hb c h && allowed_be_hb c h && sl_eqb (sent_h o h) (client_h r h)))
+            (o_headers o) &&
+    forallb (fun p => let h := canon (fst p) in
+               overwritten_b h || gql_own_hb h || negb (allowed_ep_hb c h && allowed_be_hb c h) ||
+               sl_eqb (sent_h o h) (client_h r h))
+            (r_lines r) &&
+    match g with
+    | GNone => true
+    | GPost n => sl_eqb (sent_h o CT) [json_ct] && sl_eqb (sent_h o CL) [n]
+    | GGet _ => sl_eqb (sent_h o CT) [json_ct] && sl_eqb (sent_h o CL) ["0"]
+    end &&
+    forallb (fun k => sl_eqb (sent_q o k)
+                        (static_q c k ++ (if gql_own_qb k then getl k gql_opq else fwd_q c r k)))
+            (keys (o_query o) ++ map fst (c_static c) ++ map fst (r_query r) ++ gql_keys).
+End SpecGql.
